@@ -464,6 +464,44 @@ func runOci(mode string, seed int64, tier string, sc *Script) map[string]any {
 					queries("o ", c.store)
 					continue
 				}
+				if autosave == 1 && rng.Intn(4) == 0 {
+					// a GC that fails half-way through the blob sweep (an entry it cannot remove):
+					// whatever it did, the live handle and a store opened on the directory now
+					// must tell the same story about tags, digests and predecessors
+					bd := digest.FromString(fmt.Sprintf("blocker-%d-%d", ci, step))
+					bp := filepath.Join(dir, "blobs", "sha256", bd.Encoded())
+					os.MkdirAll(filepath.Join(bp, "x"), 0o755)
+					gerr := c.store.GC(ctx)
+					verdict := "consistent"
+					if gerr == nil {
+						verdict = "gc-did-not-fail"
+					} else if s2, err := oci.New(dir); err != nil {
+						verdict = "cannot-reopen"
+					} else {
+						for _, q := range [][]string{{"tags", "last=-"}} {
+							if a, b := c.runQuery(c.store, q), c.runQuery(s2, q); a != b {
+								verdict = fmt.Sprintf("tags:live=%s,reopened=%s", a, b)
+							}
+						}
+						for t := 0; t < 4; t++ {
+							q := []string{"resolve", fmt.Sprintf("ref=t%d", t)}
+							if a, b := c.runQuery(c.store, q), c.runQuery(s2, q); a != b {
+								verdict = fmt.Sprintf("resolve-t%d:live=%s,reopened=%s", t, a, b)
+							}
+						}
+						for _, n := range u.Nodes {
+							for _, q := range [][]string{{"resolve", fmt.Sprintf("ref=d%d", n.ID)}, {"preds", fmt.Sprint(n.ID)}} {
+								if a, b := c.runQuery(c.store, q), c.runQuery(s2, q); a != b {
+									verdict = fmt.Sprintf("%s-%d:live=%s,reopened=%s", q[0], n.ID, a, b)
+								}
+							}
+						}
+					}
+					os.RemoveAll(bp)
+					sc.Op(strings.ReplaceAll(verdict, " ", "_"), "o gcpartial")
+					sc.Count("op:gc-partial")
+					// fall through to an ordinary GC, which finishes the sweep
+				}
 				done := make(chan error, 1)
 				go func() { done <- c.store.GC(ctx) }()
 				select {
